@@ -208,7 +208,7 @@ fn main() {
                     let pol = if fam.starts_with("solo") || get("--solo").is_some() {
                         Policy::Solo { rng: rng.clone(), stick, after: rng.range(0, 400), who: rng.range(0, p.threads.len()), steps: 0, solo_steps: 0, done: false }
                     } else {
-                        Policy::Random { rng: rng.clone(), stick }
+                        Policy::Random { rng: rng.clone(), stick, burst: None }
                     };
                     let o = run_one(&p, pol, &cfg);
                     nviol += o.violations.len();
